@@ -11,9 +11,18 @@ import (
 	"github.com/go-git/go-billy/v5/memfs"
 )
 
+// fsEvent is one mutation of the traced filesystem, with the data written.
+type fsEvent struct {
+	Kind string `json:"kind"` // trunc | write | rename | remove
+	Name string `json:"name"`
+	To   string `json:"to,omitempty"`
+	Data string `json:"data,omitempty"`
+}
+
 type traceFS struct {
 	billy.Filesystem
 	ops      []string
+	events   []fsEvent
 	failNext int // > 0: the failNext-th mutating call from now fails (storage fault injection)
 }
 
@@ -37,33 +46,59 @@ func (t *traceFS) OpenFile(name string, flag int, perm os.FileMode) (billy.File,
 	}
 	if flag&os.O_TRUNC != 0 {
 		t.ops = append(t.ops, "trunc:"+name)
+		t.events = append(t.events, fsEvent{Kind: "trunc", Name: name})
 	} else if flag&(os.O_WRONLY|os.O_RDWR) != 0 {
 		t.ops = append(t.ops, "write:"+name)
 	}
-	return t.Filesystem.OpenFile(name, flag, perm)
+	f, err := t.Filesystem.OpenFile(name, flag, perm)
+	if err != nil || flag&(os.O_WRONLY|os.O_RDWR) == 0 {
+		return f, err
+	}
+	return &traceFile{File: f, t: t, name: name}, nil
+}
+
+// traceFile records the data written through it.
+type traceFile struct {
+	billy.File
+	t    *traceFS
+	name string
+}
+
+func (f *traceFile) Write(p []byte) (int, error) {
+	f.t.events = append(f.t.events, fsEvent{Kind: "write", Name: f.name, Data: string(p)})
+	return f.File.Write(p)
 }
 func (t *traceFS) Create(name string) (billy.File, error) {
 	if t.fault() {
 		return nil, errInjected
 	}
 	t.ops = append(t.ops, "trunc:"+name)
-	return t.Filesystem.Create(name)
+	t.events = append(t.events, fsEvent{Kind: "trunc", Name: name})
+	f, err := t.Filesystem.Create(name)
+	if err != nil {
+		return f, err
+	}
+	return &traceFile{File: f, t: t, name: name}, nil
 }
 func (t *traceFS) Rename(from, to string) error {
 	if t.fault() {
 		return errInjected
 	}
 	t.ops = append(t.ops, fmt.Sprintf("rename:%s->%s", from, to))
+	t.events = append(t.events, fsEvent{Kind: "rename", Name: from, To: to})
 	return t.Filesystem.Rename(from, to)
 }
 func (t *traceFS) Remove(name string) error {
 	t.ops = append(t.ops, "remove:"+name)
+	t.events = append(t.events, fsEvent{Kind: "remove", Name: name})
 	return t.Filesystem.Remove(name)
 }
 func (t *traceFS) TempFile(dir, prefix string) (billy.File, error) {
 	f, err := t.Filesystem.TempFile(dir, prefix)
 	if err == nil {
 		t.ops = append(t.ops, "trunc:"+f.Name())
+		t.events = append(t.events, fsEvent{Kind: "trunc", Name: f.Name()})
+		return &traceFile{File: f, t: t, name: f.Name()}, nil
 	}
 	return f, err
 }
